@@ -3,6 +3,7 @@ Theorems: Props/C16.v.  Tie: S4, S5, S9 error paths and S12 items.  Search oracl
 alone: for programs without parse errors, no generic/unlocated error, and an error names a label that
 occurs at the reported place."""
 import re
+import os, shutil
 import lib, pipe
 from props import generic
 
@@ -63,33 +64,47 @@ def illformed_oracle(ctx):
                 why = "%s about %r is located on line %d, the fault is on line %s" % (kind, name, sl + 1, [l + 1 for l in lines])
         if why:
             bad.append(dict(files=pipe.single(t), base="a.s", kind="illformed:" + kind, why=why, output=line[:300]))
-    # undefined labels in SEVERAL files: the error must sit on an occurrence of one of the names, in the file that holds it
-    trees = []
-    for _ in range(200 if ctx.thorough() else 50):
-        names = ctx.rng.sample(["alpha_missing", "zeta_missing", "mid_gone", "Zed", "a1", "nowhere"], 2)
-        uses = [ctx.rng.choice(["j %s", "bnez a0, %s", "la a1, %s", "jal %s"]) % n for n in names]
-        pad_a, pad_b = ctx.rng.randrange(0, 4), ctx.rng.randrange(0, 6)
-        fa = "main:\n" + " li a0, 1\n" * pad_a + (' .include "lib.s"\n' if ctx.rng.random() < 0.5 else "") + " " + uses[0] + "\n li a7, 10\n ecall\n"
-        if "include" not in fa:
-            fa += '.include "lib.s"\n'
-        fb = "helper:\n" + " addi a0, a0, 1\n" * pad_b + " " + uses[1] + "\n ret\n"
-        trees.append(([("a.s", fa), ("lib.s", fb)], names))
-    tout = lib.run_impl(ctx, [lib.store_cmd("cfg live -", f, "a.s") for f, _ in trees], tag="illformed-tree")
-    for (files, names), line in zip(trees, tout):
+    # a condition that stops the analysis and lies (also) in an INCLUDED file: the error must sit on an occurrence of one of
+    # the names, in a file that holds it - and the default output of the CLI (base file only) must not be silent about it
+    KIND = {"undefined-two-files": "labelsnotdefined", "undefined-lib": "labelsnotdefined", "noreturn-lib": "functionwithoutreturn",
+            "duplicate-lib": "duplicatelabel", "duplicate-across": "duplicatelabel", "eof-label-lib": "labelwithoutinstruction"}
+    trees = [gen.stopping_tree(ctx.rng) for _ in range(240 if ctx.thorough() else 60)]
+    tout = lib.run_impl(ctx, [lib.store_cmd("cfg live -", f, "a.s") for f, _, _, _ in trees], tag="illformed-tree")
+    from props.C06 import build_rva
+    ok_r, _log, rva = build_rva(False)
+    work = os.path.join(ctx.rundir, "cli16")
+    shutil.rmtree(work, ignore_errors=True)
+    for ti, ((files, names, kind, where), line) in enumerate(zip(trees, tout)):
         m = CE.match(line)
         why = None
-        if not m or m.group(1) != "labelsnotdefined":
-            why = "two undefined labels in two files are not reported as such: %r" % line[:80]
+        if not m or m.group(1) != KIND[kind]:
+            why = "%s %s in an included file is not reported as such: %r" % (kind, names, line[:80])
         else:
             sl, sc, el, ec, fi = int(m.group(3)), int(m.group(4)), int(m.group(6)), int(m.group(7)), m.group(9)
             order = ["a.s", "lib.s"]          # import order
-            text = dict(files)[order[int(fi)]] if fi.isdigit() and int(fi) < 2 else None
+            fname = order[int(fi)] if fi.isdigit() and int(fi) < 2 else None
+            text = dict(files)[fname] if fname else None
             lines_ = text.split("\n") if text is not None else []
             cov = lines_[sl][sc:ec + 1] if sl < len(lines_) and sl == el else None
-            if cov not in names:
-                why = "'labels not defined' %s is located in file %s at line %d columns %d-%d, which reads %r" % (names, fi, sl + 1, sc + 1, ec + 1, cov)
+            if fname not in where:
+                why = "%s %s is located in file %s, the fault is in %s" % (KIND[kind], names, fname, where)
+            elif kind != "noreturn-lib" and (cov or "").rstrip(":") not in names:
+                why = "%s %s is located in file %s at line %d columns %d-%d, which reads %r" % (KIND[kind], names, fi, sl + 1, sc + 1, ec + 1, cov)
+            elif kind == "noreturn-lib" and (cov is None or not cov.strip()):
+                why = "%s is located in file %s at line %d columns %d-%d, where there is no text" % (KIND[kind], fi, sl + 1, sc + 1, ec + 1)
+        if not why and ok_r and ti < (120 if ctx.thorough() else 40):
+            d = os.path.join(work, "t%d" % ti)
+            os.makedirs(d)
+            for pth, t in files:
+                with open(os.path.join(d, pth), "w", newline="") as fh:
+                    fh.write(t)
+            rc, so, se = lib.run_cli([rva, "lint", "--no-color", os.path.join(d, "a.s")])
+            txt = so.decode("utf-8", "replace")
+            if rc != "timeout" and not ("found in other files" in txt or any(n in txt for n in names) or "rror" in txt):
+                why = "the analysis stops with %s in %s, and the default output of `rva lint` says nothing about it: %r" % (KIND[kind], where, txt[:120])
         if why:
-            bad.append(dict(files=files, base="a.s", kind="illformed:undefined-in-two-files", why=why, output=line[:300]))
+            bad.append(dict(files=files, base="a.s", kind="illformed:" + kind, why=why, output=line[:300]))
+    shutil.rmtree(work, ignore_errors=True)
     return bad, len(cases) + len(trees)
 
 
